@@ -67,15 +67,33 @@ pub fn show_msg(m: &Msg, n: usize) -> String {
     }
 }
 
+/// the same bytes placed at every residue mod 8 of the address space: decoding must depend on the bytes only
+fn at_every_placement(buf: &[u8], f: impl Fn(&[u8]) -> String) -> String {
+    let mut backing = vec![0u8; buf.len() + 16];
+    let pad = (8 - (backing.as_ptr() as usize) % 8) % 8;
+    let mut first: Option<String> = None;
+    for off in 0..8 {
+        let lo = pad + off;
+        backing[lo..lo + buf.len()].copy_from_slice(buf);
+        let r = f(&backing[lo..lo + buf.len()]);
+        match &first {
+            None => first = Some(r),
+            Some(r0) if *r0 != r => return format!("PLACEMENT-DEPENDENT at address residue {}: {} // residue 0: {}", off, r, r0),
+            _ => {}
+        }
+    }
+    first.unwrap()
+}
+
 pub fn dec(args: &[&str]) -> String {
     let buf = match args.get(0).and_then(|h| unhex(h)) {
         Some(b) => b,
         None => return "BADARG".into(),
     };
-    match Msg::from_buf(&buf[..]) {
+    at_every_placement(&buf, |b| match Msg::from_buf(b) {
         Ok((m, n)) => show_msg(&m, n),
         Err(_) => "ERR".into(),
-    }
+    })
 }
 
 /// iterate `from_buf` over the buffer as `Backend::next` does over one datagram
@@ -84,6 +102,10 @@ pub fn decs(args: &[&str]) -> String {
         Some(b) => b,
         None => return "BADARG".into(),
     };
+    at_every_placement(&buf, decs_at)
+}
+
+fn decs_at(buf: &[u8]) -> String {
     let mut out = vec![];
     let mut pos = 0usize;
     while pos < buf.len() {
